@@ -197,7 +197,7 @@ func TestWorker(t *testing.T) {
 		last, since := int64(-1), time.Now()
 		for {
 			time.Sleep(2 * time.Second)
-			if b := beat.Load(); b != last {
+			if b := beat.Load() + progressBeat.Load(); b != last {
 				last, since = b, time.Now()
 			} else if time.Since(since) > 60*time.Second {
 				fmt.Fprintf(os.Stderr, "worker: HANG run=%d: no progress for 60 s of wall time\n", curIdx)
